@@ -197,16 +197,13 @@ impl Constraints {
                 // Direct generation when `from` is less than `to`
                 from + rng.gen_range(0.0..(to - from))
             } else {
-                // Wrap-around case: generate an angle based on two segments
-                let range_length = (2.0 * PI - (from - to)).abs();
-                let segment = rng.gen_range(0.0..range_length);
-
-                // Determine which segment to take (before or after the wrap)
-                if segment < (2.0 * PI - from) {
-                    from + segment // Within the forward wrap
-                } else {
-                    to + (segment - (2.0 * PI - from)) // After the wrap
+                // Wrap-around case: the arc runs from `from` forward to `to` plus whole turns.
+                // Compliance is checked modulo 2 * PI, so no second segment is needed.
+                let mut span = (to - from).rem_euclid(2.0 * PI);
+                if span == 0.0 {
+                    span = 2.0 * PI; // from == to: unconstrained
                 }
+                from + rng.gen_range(0.0..span)
             };
             random_angle
         }
